@@ -13,6 +13,12 @@ def main(argv):
     if len(argv) < 2:
         print(__doc__)
         return 2
+    if argv[0] == "--replay":          # bin/check --replay <file>: the property is read from the record / its directory
+        import os
+
+        rec = json.load(open(argv[1]))
+        pid = rec.get("property") or os.path.basename(os.path.dirname(os.path.abspath(argv[1])))
+        argv = [pid, "--replay", argv[1]]
     pid = argv[0].upper()
     mod = importlib.import_module(f"harness.props.{pid.lower()}")
     try:
